@@ -5,7 +5,10 @@ patch=$1; tier=$2; shift 2
 cd /verif || exit 2
 if [ -n "$(git -C /repo status --porcelain --untracked-files=no)" ]; then echo "/repo has uncommitted changes: refusing"; exit 2; fi
 git -C /repo apply "$patch" || { echo "patch does not apply to /repo"; exit 2; }
-trap 'git -C /repo checkout -- . ; rm -rf /verif/replays' EXIT INT TERM
+# evidence and replay artefacts of runs on a changed tree never land in /verif
+mkdir -p /tmp/scratch/seeded-out
+export VERIF_EVIDENCE_DIR=/tmp/scratch/seeded-out/evidence VERIF_REPLAYS_DIR=/tmp/scratch/seeded-out/replays
+trap 'git -C /repo checkout -- . ; rm -rf /tmp/scratch/seeded-out' EXIT INT TERM
 for p in "$@"; do
     start=$(date +%s)
     out=$(./check $p --tier $tier 2>/dev/null | grep -E "^(OK|DETAIL|KNOWN-FINDING|MACHINERY-ERROR)" | cut -c1-330 | head -4)
